@@ -54,6 +54,14 @@ fixed('C09', 'EPSFStars.__delitem__', "EPSFStars: n_stars/all_stars/n_all_stars/
 fixed('C09', 'background_mesh no longer fails', "Background2D(filter_threshold=...): reading background_rms_mesh and then background_mesh raised TypeError (_bkg_stats dropped before the selective filter)")
 fixed('C09', 'honours an input group_id', "PSFPhotometry._prepare_init_params set self.grouper = None when init_params had a group_id column (configuration lost for later calls)")
 fixed('C09', 'profile normalize/unnormalize', "ProfileBase.normalize/unnormalize: data_profile rescaled only if already cached; cached gaussian_* stayed un-normalised")
+# ---- C05
+known('C05', 'T-CARD|photutils.segmentation.core.SegmentationImage.segments|zip(self.labels, self.slices, self.bbox, self.areas, self.polygons, strict=True)',
+      "SegmentationImage.polygons/_geo_polygons hold one polygon per connected region (rasterio shapes), not one per label: a label with two "
+      "components makes `segments` raise (zip strict) and an array without background loses its first polygon ([1:]); a per-label union "
+      "(MultiPolygon) changes the public return type, not a small safe patch",
+      "SegmentationImage(np.array([[1,0,1],[0,0,0],[2,2,2]])).segments raises ValueError; .polygons has 3 entries for 2 labels")
+fixed('C05', 'remove_border_labels(0)', "SegmentationImage.remove_border_labels(border_width=0) removed every label (`border_mask[-0:] = True`)")
+fixed('C05', 'removed deblended labels are dropped', "after remove_label(child) of a deblended source, deblended_labels contained the background label 0")
 # ---- C12
 fixed('C12', 'honours an input group_id', "PSFPhotometry: a group_id column supplied in init_params was overwritten with the source ids (every source fitted alone)")
 # ---- C19
